@@ -880,6 +880,29 @@ def run(idx, rep, tier):
     r8(k)
     r10(k)
     r11(k)
+    rep.rule('C16.R12', 'SSHOpenSSHCertificate._decode_options: for a name '
+             'without decoder, "critical" alone decides - the raise of '
+             '"Unrecognized critical option" is the direct successor of the '
+             'true edge of the test of `critical`, no further condition on '
+             'the name (vendor form name@domain, prefix, ...) can route an '
+             'unknown critical option to the skip branch')
+    _fd = k.func('public_key.SSHOpenSSHCertificate._decode_options')
+    _gd = k.cfg(_fd)
+    _cr = [a for a in _gd.nodes if a.kind == 'atom' and
+           dotted(a.ast) == 'critical']
+    rep.floor('C16.R12', 'tests of critical', len(_cr), 1)
+    for _a in _cr:
+        _t = [b for b, lab in _gd.succ[_a.id] if lab is True]
+        _ok = bool(_t) and all(_gd.nodes[b].kind == 'raise_stmt' for b in _t)
+        rep.check(_ok, 'C16.R12',
+                  key(_fd, 'unknown critical option always refused'),
+                  'critical -> raise KeyImportError',
+                  'between the test of `critical` and the raise there is '
+                  'another condition: a certificate carrying the unknown '
+                  'critical option restrict-to@example.com (or '
+                  'force-command@openssh.com) is imported with empty '
+                  'options - the restriction is silently dropped',
+                  k.loc(_fd, _a))
     # C16.R9: the algorithm name of a signature blob is compared as read;
     # principals / namespaces are matched case-sensitively (shared witnesses)
     from .c17 import wildcard_witnesses
@@ -910,3 +933,6 @@ def run(idx, rep, tier):
                   'under a plain key, so the name is no longer bound',
                   k.loc(_vf, _n))
     wildcard_witnesses(k, 'C16.R9')
+    from .shared import share
+    from .c04 import r8 as _c04r8
+    share(k, 'C16.R13', 'key equality covers the whole encoded public key (= C04.R8): two keys that differ in any public parameter (the DSA generator) are different signers', _c04r8)
